@@ -1,13 +1,320 @@
 import PsiProofs.Helper.C12_Run
-/-! `event_rate`: time base of the emitted blocks (the window counts themselves are checked by the
-differential run and the oracle only — see notes/C12.md). -/
+/-! `event_rate`: the whole-stream definition (`rateSpec`), the inner loop (`rateLoop_spec`) and the
+run over an arbitrary chunking of a well-formed event stream (`eventRate_run`). -/
 namespace Psi.Stages
-variable {σ I O : Type}
+variable {σ I O ρ χ μ : Type}
 
-/-- blocks `(2·s0, counts)`: the first starts at `t/2`, each starts where the previous ended -/
-def ContigRate : Nat → List (Nat × List Nat) → Prop
+/-! ### the whole-stream definition -/
+
+/-- is the event at sample `x` inside the window `[lo, lo + size)` -/
+def inWin (size lo x : Nat) : Bool := lo ≤ x && x < lo + size
+
+/-- number of windows `[a + j·step, a + j·step + size)` that the loop condition
+`events.range_samples > block_size` completes when the known span is `[a, b)`:
+`⌈(b - a - size) / step⌉`, see `nWindows_spec` -/
+def nWindows (size step a b : Nat) : Nat := (b - (a + size) + (step - 1)) / step
+
+/-- the event counts of the completed windows, computed from the whole stream: `all` lists every
+event of the stream (in any order), `[a, b)` is its span -/
+def rateSpec (size step a b : Nat) (all : List Nat) : List Nat :=
+  (List.range (nWindows size step a b)).map fun j => all.countP (inWin size (a + j * step))
+
+/-- exactly the windows with `start + size < end` (the `while` condition) are completed -/
+theorem nWindows_spec {size step a b : Nat} (hs : 0 < step) (j : Nat) :
+    j < nWindows size step a b ↔ a + j * step + size < b := by
+  unfold nWindows
+  rw [Nat.lt_iff_add_one_le, Nat.le_div_iff_mul_le hs, Nat.add_mul, Nat.one_mul]
+  omega
+
+theorem nWindows_unique {size step a b n : Nat} (hs : 0 < step)
+    (h : ∀ j, j < n ↔ a + j * step + size < b) : n = nWindows size step a b := by
+  have h1 := (not_congr (h n)).mp (Nat.lt_irrefl n)
+  have h2 := (not_congr (nWindows_spec (size := size) (a := a) (b := b) hs (nWindows size step a b))).mp
+    (Nat.lt_irrefl _)
+  have h3 := (not_congr (nWindows_spec (size := size) (a := a) (b := b) hs n)).mpr h1
+  have h4 := (not_congr (h (nWindows size step a b))).mpr h2
+  omega
+
+theorem nWindows_zero {size step a b : Nat} (hs : 0 < step) (h : ¬ a + size < b) :
+    nWindows size step a b = 0 := by
+  refine (nWindows_unique hs ?_).symm
+  intro j
+  have : 0 ≤ j * step := Nat.zero_le _
+  constructor
+  · intro h0; omega
+  · intro h1; omega
+
+theorem nWindows_succ {size step a b : Nat} (hs : 0 < step) (h : a + size < b) :
+    nWindows size step a b = nWindows size step (a + step) b + 1 := by
+  refine (nWindows_unique hs ?_).symm
+  intro j
+  cases j with
+  | zero => simp; omega
+  | succ j =>
+    rw [Nat.add_lt_add_iff_right, nWindows_spec hs, Nat.add_mul, Nat.one_mul]
+    omega
+
+/-- more of the stream known: the windows completed before stay, new ones follow -/
+theorem nWindows_split {size step a b c : Nat} (hs : 0 < step) (hbc : b ≤ c) :
+    nWindows size step a c
+      = nWindows size step a b + nWindows size step (a + nWindows size step a b * step) c := by
+  refine (nWindows_unique hs ?_).symm
+  intro j
+  by_cases hj : j < nWindows size step a b
+  · have := (nWindows_spec (size := size) (a := a) (b := b) hs j).mp hj
+    constructor
+    · intro _; omega
+    · intro _; omega
+  · have hj' : nWindows size step a b ≤ j := Nat.le_of_not_lt hj
+    obtain ⟨k, rfl⟩ := Nat.exists_eq_add_of_le hj'
+    rw [Nat.add_lt_add_iff_left, nWindows_spec hs, Nat.add_mul]
+    omega
+
+theorem nWindows_le {size step a b : Nat} (hs : 0 < step) : nWindows size step a b ≤ b - a := by
+  apply Nat.le_of_not_lt
+  intro h
+  have h1 := (nWindows_spec (size := size) (a := a) (b := b) hs (b - a)).mp h
+  have : b - a ≤ (b - a) * step := Nat.le_mul_of_pos_right _ hs
+  omega
+
+theorem rateSpec_split {size step a b c : Nat} (hs : 0 < step) (hbc : b ≤ c) (all : List Nat) :
+    rateSpec size step a c all
+      = (List.range (nWindows size step a b)).map (fun j => all.countP (inWin size (a + j * step)))
+        ++ rateSpec size step (a + nWindows size step a b * step) c all := by
+  unfold rateSpec
+  rw [nWindows_split hs hbc, List.range_add, List.map_append, List.map_map]
+  congr 1
+  apply List.map_congr_left
+  intro j _
+  simp only [Function.comp, Nat.add_mul, Nat.add_assoc]
+
+/-! ### the inner loop -/
+
+theorem countP_congr' {p q : Nat → Bool} {l : List Nat} (h : ∀ x ∈ l, p x = q x) :
+    l.countP p = l.countP q := by
+  induction l with
+  | nil => rfl
+  | cons x l ih =>
+    have hx := h x (by simp)
+    have := ih (fun y hy => h y (by simp [hy]))
+    simp only [List.countP_cons, hx, this]
+
+/-- The loop completes exactly `nWindows` windows; the count of window `j` is the number of buffered
+events inside it (in whatever order they are listed); the events that are kept are all that can fall
+into a later window. -/
+theorem rateLoop_spec (size step : Nat) (hs : 0 < step) (fs : ρ) :
+    ∀ (fuel : Nat) (evs : List Nat) (a b : Nat), nWindows size step a b ≤ fuel → (∀ x ∈ evs, x < b) →
+      ∃ evs', rateLoop size step fuel ⟨evs, a, b, fs⟩
+          = ((List.range (nWindows size step a b)).map (fun j => evs.countP (inWin size (a + j * step))),
+             ⟨evs', a + nWindows size step a b * step, b, fs⟩)
+        ∧ (∀ x ∈ evs', x < b)
+        ∧ (∀ lo, a + nWindows size step a b * step ≤ lo →
+            evs'.countP (inWin size lo) = evs.countP (inWin size lo)) := by
+  intro fuel
+  induction fuel with
+  | zero =>
+    intro evs a b hf hlt
+    have h0 : nWindows size step a b = 0 := Nat.le_zero.mp hf
+    exact ⟨evs, by simp [rateLoop, h0], hlt, fun _ _ => rfl⟩
+  | succ fuel ih =>
+    intro evs a b hf hlt
+    by_cases hc : a + size < b
+    · have hn := nWindows_succ hs hc
+      have hlt2 : ∀ x ∈ evs.filter (fun s => a + step ≤ s && s < b), x < b :=
+        fun x hx => hlt x (List.mem_filter.mp hx).1
+      obtain ⟨evs', hrun, hlt', hkeep⟩ := ih (evs.filter (fun s => a + step ≤ s && s < b)) (a + step) b
+        (by omega) hlt2
+      refine ⟨evs', ?_, hlt', ?_⟩
+      · simp only [rateLoop, hc, if_true, Ev.range, hrun, hn, List.range_succ_eq_map, List.map_cons,
+          List.map_map]
+        congr 1
+        · congr 1
+          · rw [List.countP_eq_length_filter, Nat.zero_mul, Nat.add_zero]
+            rfl
+          · apply List.map_congr_left
+            intro j _
+            simp only [Function.comp, List.countP_filter]
+            apply countP_congr'
+            intro x hx
+            have := hlt x hx
+            simp only [inWin, Nat.succ_eq_add_one, Nat.add_mul, Nat.one_mul]
+            have e : a + step + j * step = a + (j * step + step) := by omega
+            rw [e]
+            by_cases h1 : a + (j * step + step) ≤ x
+            · have : a + step ≤ x := by omega
+              simp [*]
+            · simp [h1]
+        · congr 1
+          rw [Nat.add_mul, Nat.one_mul]; omega
+      · intro lo hlo
+        have hlo' : a + step + nWindows size step (a + step) b * step ≤ lo := by
+          rw [hn, Nat.add_mul, Nat.one_mul] at hlo; omega
+        rw [hkeep lo hlo', List.countP_filter]
+        apply countP_congr'
+        intro x hx
+        have := hlt x hx
+        simp only [inWin]
+        by_cases h1 : lo ≤ x
+        · have : a + step ≤ x := by omega
+          simp [*]
+        · simp [h1]
+    · have h0 := nWindows_zero (size := size) (a := a) (b := b) hs hc
+      exact ⟨evs, by simp [rateLoop, hc, h0], hlt, fun _ _ => rfl⟩
+
+/-! ### well-formed event streams and their chunkings -/
+
+/-- A chunking of an event stream: adjacent `Events` objects starting at `t` (empty spans allowed), all
+with sampling rate `fs`, every event inside the span of the object that carries it.  The events of an
+object may be listed in any order. -/
+def WFEvents (fs : ρ) : Nat → List (Ev ρ) → Prop
   | _, [] => True
-  | t, b :: bs => b.1 = t ∧ ContigRate (t + 2 * b.2.length) bs
+  | t, e :: es => e.start = t ∧ e.start ≤ e.stop ∧ e.fs = fs ∧ (∀ x ∈ e.events, e.start ≤ x ∧ x < e.stop)
+      ∧ WFEvents fs e.stop es
+
+/-- end of the stream -/
+def endOf : Nat → List (Ev ρ) → Nat
+  | t, [] => t
+  | _, e :: es => endOf e.stop es
+
+/-- every event of the stream (chunk after chunk, each in its listed order) -/
+def allEvents (es : List (Ev ρ)) : List Nat := (es.map (·.events)).flatten
+
+theorem WFEvents.le_endOf {fs : ρ} : ∀ {es : List (Ev ρ)} {t : Nat}, WFEvents fs t es → t ≤ endOf t es
+  | [], _, _ => Nat.le_refl _
+  | e :: es, t, h => by
+    obtain ⟨h1, h2, _, _, h5⟩ := h
+    have := WFEvents.le_endOf h5
+    simp only [endOf]; omega
+
+theorem WFEvents.ge_start {fs : ρ} : ∀ {es : List (Ev ρ)} {t : Nat}, WFEvents fs t es →
+    ∀ x ∈ allEvents es, t ≤ x
+  | [], _, _ => by simp [allEvents]
+  | e :: es, t, h => by
+    obtain ⟨h1, h2, _, h4, h5⟩ := h
+    intro x hx
+    simp only [allEvents, List.map_cons, List.flatten_cons, List.mem_append] at hx
+    rcases hx with hx | hx
+    · have := (h4 x hx).1; omega
+    · have := WFEvents.ge_start h5 x hx; omega
+
+theorem WFEvents.lt_endOf {fs : ρ} : ∀ {es : List (Ev ρ)} {t : Nat}, WFEvents fs t es →
+    ∀ x ∈ allEvents es, x < endOf t es
+  | [], _, _ => by simp [allEvents]
+  | e :: es, t, h => by
+    obtain ⟨h1, h2, _, h4, h5⟩ := h
+    intro x hx
+    simp only [allEvents, List.map_cons, List.flatten_cons, List.mem_append] at hx
+    simp only [endOf]
+    rcases hx with hx | hx
+    · have := (h4 x hx).2
+      have := WFEvents.le_endOf h5
+      omega
+    · exact WFEvents.lt_endOf h5 x hx
+
+theorem countP_inWin_zero {size lo : Nat} {l : List Nat} (h : ∀ x ∈ l, lo + size ≤ x) :
+    l.countP (inWin size lo) = 0 := by
+  rw [List.countP_eq_zero]
+  intro x hx
+  have := h x hx
+  simp [inWin]; omega
+
+/-! ### the run -/
+
+variable [DecidableEq ρ]
+
+/-- one `send` in the running state -/
+theorem eventRateStep_some (divFs : ρ → Nat → ρ) (chDef : χ) (mdEmpty : μ) (size step : Nat) (hs : 0 < step)
+    (fs ofs : ρ) (evs : List Nat) (a b t : Nat) (e : Ev ρ) (hb : ∀ x ∈ evs, x < b)
+    (he0 : e.start = b) (he1 : e.start ≤ e.stop) (hefs : e.fs = fs) (he2 : ∀ x ∈ e.events, x < e.stop) :
+    ∃ evs', eventRateStep divFs chDef mdEmpty size step (some ⟨⟨evs, a, b, fs⟩, t, ofs⟩) e
+        = .ok (if nWindows size step a e.stop = 0 then [] else
+                [{ data := (List.range (nWindows size step a e.stop)).map
+                      (fun j => (evs ++ e.events).countP (inWin size (a + j * step)))
+                   s0 := (t : Int), ann := ⟨ofs, chDef, mdEmpty⟩ }],
+               some ⟨⟨evs', a + nWindows size step a e.stop * step, e.stop, fs⟩,
+                 t + 2 * nWindows size step a e.stop, ofs⟩)
+      ∧ (∀ x ∈ evs', x < e.stop)
+      ∧ (∀ lo, a + nWindows size step a e.stop * step ≤ lo →
+          evs'.countP (inWin size lo) = (evs ++ e.events).countP (inWin size lo)) := by
+  have hall : ∀ x ∈ evs ++ e.events, x < e.stop := by
+    intro x hx
+    rcases List.mem_append.mp hx with hx | hx
+    · have := hb x hx; omega
+    · exact he2 x hx
+  obtain ⟨evs', hrun, hlt, hkeep⟩ := rateLoop_spec size step hs fs (e.stop - a) (evs ++ e.events) a e.stop
+    (nWindows_le hs) hall
+  refine ⟨evs', ?_, hlt, hkeep⟩
+  have h0 : step ≠ 0 := Nat.ne_of_gt hs
+  simp only [eventRateStep, h0, if_false, he0, hefs, ne_eq, not_true_eq_false, hrun, List.isEmpty_iff,
+    List.map_eq_nil_iff, List.range_eq_nil, List.length_map, List.length_range]
+  by_cases hz : nWindows size step a e.stop = 0
+  · simp [hz]
+  · simp [hz]
+
+/-- The run from any running state over any well-formed continuation: what is emitted is the whole-stream
+computation over the buffered events and everything that follows; blocks contiguous; annotations constant. -/
+theorem eventRate_run (divFs : ρ → Nat → ρ) (chDef : χ) (mdEmpty : μ) (size step : Nat) (hs : 0 < step)
+    (fs ofs : ρ) : ∀ (es : List (Ev ρ)) (evs : List Nat) (a b t : Nat), WFEvents fs b es →
+      (∀ x ∈ evs, x < b) → (es = [] → ¬ a + size < b) →
+      ∃ bs, outputs (runStage (eventRateStep divFs chDef mdEmpty size step) (some ⟨⟨evs, a, b, fs⟩, t, ofs⟩) es)
+            = .ok bs
+        ∧ Emits bs (rateSpec size step a (endOf b es) (evs ++ allEvents es)) 2 t ⟨ofs, chDef, mdEmpty⟩ := by
+  intro es
+  induction es with
+  | nil =>
+    intro evs a b t _ _ hdone
+    refine ⟨[], rfl, ?_⟩
+    have : rateSpec size step a (endOf b ([] : List (Ev ρ))) (evs ++ allEvents ([] : List (Ev ρ))) = [] := by
+      simp [rateSpec, endOf, nWindows_zero hs (hdone rfl)]
+    rw [this]; exact Emits.nil _ _ _
+  | cons e es ih =>
+    intro evs a b t hwf hb _
+    obtain ⟨he0, he1, hefs, he2, hwf'⟩ := hwf
+    obtain ⟨evs', hstep, hlt, hkeep⟩ := eventRateStep_some divFs chDef mdEmpty size step hs fs ofs evs a b t e hb
+      he0 he1 hefs (fun x hx => (he2 x hx).2)
+    have hdone' : es = [] → ¬ a + nWindows size step a e.stop * step + size < e.stop := by
+      intro _ h
+      have := (nWindows_spec (size := size) (a := a) (b := e.stop) hs (nWindows size step a e.stop)).mpr h
+      omega
+    have ih' := ih evs' (a + nWindows size step a e.stop * step) e.stop (t + 2 * nWindows size step a e.stop)
+      hwf' hlt hdone'
+    -- the whole-stream value splits into the windows completed now and the later ones
+    have hle : e.stop ≤ endOf e.stop es := WFEvents.le_endOf hwf'
+    have hspec : rateSpec size step a (endOf b (e :: es)) (evs ++ allEvents (e :: es))
+        = (List.range (nWindows size step a e.stop)).map
+            (fun j => (evs ++ e.events).countP (inWin size (a + j * step)))
+          ++ rateSpec size step (a + nWindows size step a e.stop * step) (endOf e.stop es)
+              (evs' ++ allEvents es) := by
+      have hall : evs ++ allEvents (e :: es) = (evs ++ e.events) ++ allEvents es := by
+        simp [allEvents]
+      simp only [endOf]
+      rw [rateSpec_split hs hle, hall]
+      congr 1
+      · apply List.map_congr_left
+        intro j hj
+        have hj' := (nWindows_spec (size := size) (a := a) (b := e.stop) hs j).mp (List.mem_range.mp hj)
+        rw [List.countP_append, countP_inWin_zero (l := allEvents es), Nat.add_zero]
+        intro x hx
+        have := WFEvents.ge_start hwf' x hx
+        omega
+      · unfold rateSpec
+        apply List.map_congr_left
+        intro j _
+        have hlo : a + nWindows size step a e.stop * step
+            ≤ a + nWindows size step a e.stop * step + j * step := Nat.le_add_right _ _
+        simp only [List.countP_append]
+        rw [hkeep _ hlo, List.countP_append]
+    rw [hspec]
+    by_cases hz : nWindows size step a e.stop = 0
+    · simp only [hz, if_true, Nat.mul_zero, Nat.add_zero, Nat.zero_mul] at hstep
+      simp only [hz, List.range_zero, List.map_nil, List.nil_append, Nat.mul_zero, Nat.add_zero,
+        Nat.zero_mul] at ih' ⊢
+      exact run_emit_none hstep ih'
+    · simp only [hz, if_false] at hstep
+      refine run_emit_one _ hstep ih' rfl rfl ?_ rfl
+      simp [PD.len]
+
+/-! ### time base and annotations on any stream (well-formed or not) -/
 
 theorem outputs_cons_ok {step : σ → I → Except Err (List O × σ)} {s : σ} {c : I} {cs : List I} {bs : List O}
     (h : outputs (runStage step s (c :: cs)) = .ok bs) :
@@ -26,14 +333,16 @@ theorem outputs_cons_ok {step : σ → I → Except Err (List O × σ)} {s : σ}
       refine ⟨o, s', os, rfl, by simp [outputs, hr], ?_⟩
       injection h with h; exact h.symm
 
-theorem eventRate_contig (size step : Nat) : ∀ (es : List Ev) (st : RateSt) (bs : List (Nat × List Nat)),
-    outputs (runStage (eventRateStep size step) (some st) es) = .ok bs → ContigRate st.s0x2 bs := by
+theorem eventRate_contig (divFs : ρ → Nat → ρ) (chDef : χ) (mdEmpty : μ) (size step : Nat) :
+    ∀ (es : List (Ev ρ)) (st : RateSt ρ) (bs : List (PD Nat ρ χ μ)),
+    outputs (runStage (eventRateStep divFs chDef mdEmpty size step) (some st) es) = .ok bs →
+      Contig 2 st.s0x2 bs ∧ ∀ b ∈ bs, b.ann = ⟨st.fs, chDef, mdEmpty⟩ := by
   intro es
   induction es with
   | nil =>
     intro st bs h
     simp only [runStage, outputs] at h
-    injection h with h; subst h; trivial
+    injection h with h; subst h; exact ⟨trivial, by simp⟩
   | cons e es ih =>
     intro st bs h
     obtain ⟨o, s', bs', hstep, hrest, rfl⟩ := outputs_cons_ok h
@@ -44,15 +353,22 @@ theorem eventRate_contig (size step : Nat) : ∀ (es : List Ev) (st : RateSt) (b
       split at hstep
       · cases hstep
       · split at hstep
-        · injection hstep with hstep
-          injection hstep with h1 h2
-          subst h1 h2
-          have h3 := ih _ _ hrest
-          exact h3
-        · injection hstep with hstep
-          injection hstep with h1 h2
-          subst h1 h2
-          have h3 := ih _ _ hrest
-          exact ⟨rfl, h3⟩
+        · cases hstep
+        · split at hstep
+          · injection hstep with hstep
+            injection hstep with h1 h2
+            subst h1 h2
+            have h3 := ih _ _ hrest
+            exact h3
+          · injection hstep with hstep
+            injection hstep with h1 h2
+            subst h1 h2
+            obtain ⟨h3, h4⟩ := ih _ _ hrest
+            refine ⟨⟨rfl, ?_⟩, ?_⟩
+            · simpa [PD.len, Int.natCast_add, Int.natCast_mul] using h3
+            · intro b hb
+              rcases List.mem_cons.mp hb with rfl | hb
+              · rfl
+              · exact h4 b hb
 
 end Psi.Stages
